@@ -26,6 +26,10 @@ MUTANTS = [
     M("odp-cells-covered-only", ODP, "        for cell in row.findall(\"table:table-cell\", NS):", "        for cell in row.findall(\"table:covered-table-cell\", NS):", "C13-WALK", "lost"),
     M("pptx-first-cell-only", PPTX, "        for tc in tr.findall(A_TC):\n            tx_body = tc.find(A_TXBODY)", "        for tc in [tr.find(A_TC)]:\n            tx_body = tc.find(A_TXBODY)", "C13-WALK"),
     M("pptx-rows-all-descendants-of-frame", PPTX, "    for tr in tbl.findall(A_TR):\n        row_data: list[str] = []", "    for tr in tbl.findall(A_TR) + tbl.findall(A_TR):\n        row_data: list[str] = []", "C13-WALK"),
+    M("html-nested-tables-not-recorded", X + "html_extractor.py", "        for nested in self._nested_tables(table_node):\n            self._append_table(nested)\n", "", "C13-WALK", "lost"),
+    M("html-header-cells-dropped", X + "html_extractor.py", "                if child.get(\"tag\") in (\"th\", \"td\"):\n                    cell_text = self._get_node_text(child).strip()", "                if child.get(\"tag\") == \"td\":\n                    cell_text = self._get_node_text(child).strip()", "C13-WALK", "lost"),
+    M("pptx-merged-cells-skipped", PPTX, "        for tc in tr.findall(A_TC):\n            tx_body = tc.find(A_TXBODY)", "        for tc in tr.findall(A_TC):\n            if tc.get(\"hMerge\") in (\"1\", \"true\"):\n                continue\n            tx_body = tc.find(A_TXBODY)", "C13-WALK", "cell skipped"),
+    M("xlsx-rows-from-record-values", XLSX, "        all_rows.append([_get_cell_value(val) for val in row])", "        all_rows.append(list(record.values()))", "C13-KEY"),
     M("xlsx-emptiness-by-truthiness", XLSX, "    return val is not None and (not isinstance(val, str) or val.strip() != \"\")", "    if isinstance(val, str):\n        return bool(val.strip())\n    return bool(val)", "C13-TRIM"),
     M("xlsx-blank-strings-are-data", XLSX, "    return val is not None and (not isinstance(val, str) or val.strip() != \"\")", "    return val is not None and val != \"\"", "C13-TRIM"),
     M("epub-non-linear-skipped", EPUB, "        for itemref in spine_elem.findall(\"opf:itemref\", NS):\n            idref = itemref.get(\"idref\", \"\")\n            if idref:", "        for itemref in spine_elem.findall(\"opf:itemref\", NS):\n            idref = itemref.get(\"idref\", \"\")\n            if idref and itemref.get(\"linear\", \"yes\") != \"no\":", "C13-SPINE"),
